@@ -122,6 +122,9 @@ def build(tier, seed):
         maprows = [(hi, mid) for mid in (-1, 2, 4, 5, 8)
                    for hi in range(65536)
                    if not (hi & 0x8000) and not (hi & 0x100) and (hi & 0x80) and ((hi >> 9) & 63) in (0, 21, 63)]
+    # every event header (bit 23 = 0, bit 16 = 0: all five schemes) under two sparse heterogeneous maps
+    maprows += [(hi, mid) for mid in (100, 101) for hi in range(65536) if not (hi & 0x8000) and not (hi & 0x100)
+                and (tier == "thorough" or ((hi >> 9) & 63) in (0, 1, 5, 21, 62, 63))]
     cmdrec.pvals("obmap", [0, 1, 2, 5, 9, 15, 16, 17, 0x55, 0xAA, 0xFF] if tier == "quick" else range(256))
     jobs = [("dec16", (dt, hb)) for dt in dts for hb in range(256)]
     jobs += [("dec24", (hi, 0, "ob")) for hi in his]
